@@ -265,13 +265,31 @@ Definition iw_serve_waits (b : bool) (s : iwstate) : Prop :=
   | VClose => iw_enabled b s VTry
   | VFlush => iw_enabled b s VFlushDone
   | VBlocked => False
+  | VEnded => iw_broken s = true   (* not a stall: Serve returned the error of an earlier failed data packet *)
   end.
+
+(* Serve ends in the close handler only with the stale error of a failed data packet *)
+Lemma iw_ended_only_broken_step s l s' :
+  (iw_v s = VEnded -> iw_broken s = true) -> iw_step false s l = Some s' -> (iw_v s' = VEnded -> iw_broken s' = true).
+Proof.
+  intros I H. destruct l; cbn [iw_step] in H; iw_break H; injection H as <-; cbn; intros; try discriminate; auto;
+    try (rewrite I by congruence; reflexivity); try congruence.
+Qed.
+
+Lemma iw_ended_only_broken_run tr s : run (iw_step false) iw_init tr = Some s -> iw_v s = VEnded -> iw_broken s = true.
+Proof.
+  apply (invariant_run _ _ (iw_step false) (fun s => iw_v s = VEnded -> iw_broken s = true) iw_init).
+  - discriminate.
+  - intros s0 l s1 I H. exact (iw_ended_only_broken_step s0 l s1 I H).
+Qed.
 
 Lemma iw_serve_progress_run tr s : run (iw_step false) iw_init tr = Some s -> iw_serve_waits false s.
 Proof.
   intro R. pose proof (iw_never_blocked_run tr s R) as N. unfold iw_serve_waits, iw_enabled.
-  destruct (iw_v s) eqn:E; auto; cbn [iw_step]; rewrite E; try discriminate.
-  destruct (writer_holds s); discriminate.
+  destruct (iw_v s) eqn:E; auto; cbn [iw_step]; rewrite ?E; try discriminate.
+  - destruct (writer_holds s); discriminate.
+  - destruct (iw_broken s); discriminate.
+  - apply (iw_ended_only_broken_run tr s R E).
 Qed.
 
 (* writer progress: it can always go on, or waits for a reply that the (free) serve goroutine can deliver *)
@@ -291,14 +309,14 @@ Qed.
 
 (* the close request is always answered, whatever the writer does *)
 Lemma iw_close_completes s :
-  iw_v s = VClose ->
+  iw_v s = VClose -> iw_broken s = false ->
   exists s1, iw_step false s VTry = Some s1 /\
     (iw_v s1 = VIdle /\ iw_closed s1 = true \/
      exists s2, iw_step false s1 VFlushDone = Some s2 /\ iw_v s2 = VIdle /\ iw_closed s2 = true).
 Proof.
-  intro E. cbn [iw_step]. rewrite E. destruct (writer_holds s).
+  intros E B. cbn [iw_step]. rewrite E. destruct (writer_holds s).
   - eexists. split; [reflexivity|]. left. split; reflexivity.
-  - eexists. split; [reflexivity|]. right. cbn. eexists. split; [reflexivity|]. split; reflexivity.
+  - eexists. split; [reflexivity|]. right. cbn. rewrite B. eexists. split; [reflexivity|]. split; reflexivity.
 Qed.
 
 (* a writer overtaken by the close is told to stop: its next packet fails *)
